@@ -42,7 +42,7 @@ def to_dict(sheets, with_headers=True, fallback_form_name=None, keep_blank_rows=
     """raw=True passes text cells verbatim (no trimming / NBSP normalisation): what an API caller could hand over."""
     d = {"sheet_names": list(sheets)}
     for name, (hdrs, rows) in sheets.items():
-        key = name.lower()
+        key = name.strip().lower()  # what every reader makes of a sheet name: letter case and surrounding blanks do not count
         if key not in KNOWN_SHEETS:
             continue
         out = []
